@@ -1,6 +1,7 @@
 package main
 
 import (
+	"os"
 	"sort"
 	"strings"
 )
@@ -57,6 +58,9 @@ func containsAny(s string, vars []string) bool {
 
 // inferPatterns returns pattern attribute text (possibly empty) for a quantifier over vars with body.
 func inferPatterns(vars []string, body string) string {
+	if os.Getenv("GOCV_NOPAT") != "" {
+		return ""
+	}
 	cands := map[string][]string{}
 	seen := map[string]bool{}
 	for _, head := range []string{"(idx ", "(select "} {
